@@ -294,6 +294,30 @@ def _eval_evolve(case):
 
 
 # ------------------------------------------------------------------------------------------ compute
+def _perturbative(inputs, nf_ref, order, method, ratios, xif2):
+    """alpha_s finite and <= 0.6 at every matching scale (both adjacent nf) and at every mass reference scale."""
+    import warnings
+
+    import numpy as np
+
+    m2 = [inputs[q][0] ** 2 for q in "cbt"]
+    with warnings.catch_warnings():
+        warnings.simplefilter("ignore")
+        try:
+            sc = _sc(order, method, nf_ref, m2, ratios, xif2)
+            pts = []
+            for j in range(3):
+                pts += [(ratios[j] * m2[j], j + 3), (ratios[j] * m2[j], j + 4)]
+            pts += [(inputs[q][1] ** 2, None) for q in "cbt"] + [(inputs[q][0] ** 2, None) for q in "cbt"]
+            for s, nf in pts:
+                a = float(sc.a(s * xif2, nf)[0])
+                if not (np.isfinite(a) and 0 < a <= 0.6 / (4 * math.pi)):
+                    return False
+        except Exception:  # noqa
+            return False
+    return True
+
+
 def _eval_compute(case):
     import warnings
 
@@ -308,6 +332,12 @@ def _eval_compute(case):
     res = Result()
     bad = expected_consistency(inputs, nf_ref)
     unit = all(r == 1.0 for r in ratios) and xif2 == 1.0
+    if not bad and not _perturbative(inputs, nf_ref, order, method, ratios, xif2):
+        # e.g. alpha_s^(3)(1.1 GeV) = 0.4 with matching ratio 0.25 and xif2 = 0.25: the coupling would have to be run
+        # down to 0.3 GeV through its Landau pole; no statement is made there
+        res.outcome = "outside-perturbative-domain"
+        res.nontrivial = False
+        return res
     where = f"inputs={inputs} coupling_ref={COUPLING_REFS[nf_ref]}@nf{nf_ref} order={order} method={method} ratios={ratios} xif2={xif2}"
     out = None
     exc = None
@@ -450,6 +480,7 @@ def run(ctx):
         "mass (the heaviest active one not above mu_ref), an inactive one at or below (the lightest inactive one not below mu_ref)",
         "matching scales are k_j m_j(m_j)^2 in units of the mass' scale argument, L = ln k_j, the decoupling factor uses the "
         "coupling of the upper theory at the matching scale; a_s is evaluated at xif2 * mu^2 (eko's convention for xif)",
+        "configurations in which alpha_s is not finite or exceeds 0.6 at a matching scale / mass reference scale are outside the domain (counted as trivial)",
         "a_s^(nf)(mu) itself is taken from eko's Couplings object built with the returned masses (scheme MSBAR, ratios*xif2)",
         "a quark whose reference scale lies between another quark's mass and that quark's matching scale is not checked for the fixed point (flavour scheme of the input not defined by the statement)",
         f"fixed point tolerance {TOL_FIXED} relative on m; kernels 1e-8 (exact) / 1e-12 (expanded); evolution across a matching scale 2e-7",
